@@ -6,6 +6,41 @@ Local Open Scope N_scope.
 
 (* ---- automation for the memory side conditions: every buffer id is a nat, every fact
    about the heap after a sequence of primitives is an if-chain over Nat.eqb ---- *)
+(* lia is exponential in the number of disequalities in the context (NoDup of the owned set
+   gives up to six) and zify is linear in the size of the context: every arithmetic side
+   condition is therefore solved in a context reduced to the (in)equalities on buffer ids,
+   with the disequalities left out ([lia_nd]) or restricted to the two ids compared. *)
+Ltac neq_norm := repeat match goal with
+  | H : ~ (_ \/ _) |- _ => apply Decidable.not_or in H; destruct H
+  | H : ~ False |- _ => clear H end.
+Ltac arith_ctx a b :=
+  repeat match goal with H : ?T |- _ =>
+    lazymatch T with
+    | False => idtac | (_ < _)%nat => idtac | (_ <= _)%nat => idtac | @eq nat _ _ => idtac
+    | @eq nat _ _ \/ _ => idtac | (_ < _)%nat /\ _ => idtac
+    | a <> _ => idtac | _ <> a => idtac | b <> _ => idtac | _ <> b => idtac
+    end; revert H end;
+  let Hd := fresh "Hd" in pose proof I as Hd; clear - Hd; clear Hd; intros.
+Ltac arith_all :=
+  repeat match goal with H : ?T |- _ =>
+    lazymatch T with
+    | False => idtac | (_ < _)%nat => idtac | (_ <= _)%nat => idtac | @eq nat _ _ => idtac
+    | @eq nat _ _ \/ _ => idtac | (_ < _)%nat /\ _ => idtac | ~ (@eq nat _ _) => idtac
+    end; revert H end;
+  let Hd := fresh "Hd" in pose proof I as Hd; clear - Hd; clear Hd; intros.
+Ltac lia_nd := arith_ctx False False; lia.
+Ltac neq_fast a b :=
+  first [ assumption | apply not_eq_sym; assumption | lia_nd | neq_norm; arith_ctx a b; lia | arith_all; lia ].
+Ltac neq_tac := match goal with |- ?a <> ?b => neq_fast a b end.
+Ltac eqb_fast := repeat match goal with
+  | |- context [Nat.eqb ?a ?a] => rewrite (Nat.eqb_refl a)
+  | |- context [Nat.eqb ?a ?b] =>
+   first [ replace (Nat.eqb a b) with false by (symmetry; apply Nat.eqb_neq; neq_fast a b)
+         | replace (Nat.eqb a b) with true by (symmetry; apply Nat.eqb_eq; lia_nd) ] end.
+Ltac notin_tac :=
+  let HH := fresh "HH" in intros HH;
+  repeat (destruct HH as [HH|HH]; [revert HH; match goal with |- ?a = ?b -> False => change (a <> b); neq_fast a b end|]);
+  exact HH.
 Ltac own_norm :=
   unfold owns, owns_loc, blk_owned, data_owned in *; cbn [ml_ikey ml_blk ml_k mi_loc mi_it app dfree bkfree dafree] in *.
 Ltac own_facts Hnd Hlv :=
@@ -14,31 +49,32 @@ Ltac own_facts Hnd Hlv :=
   try pose proof (Hlv _ (or_intror (or_intror (or_introl eq_refl))));
   try pose proof (Hlv _ (or_intror (or_intror (or_intror (or_introl eq_refl)))));
   repeat (let Hx := fresh "Hnd" in apply NoDup_cons_iff in Hnd; destruct Hnd as [Hx Hnd]; cbn [In] in Hx);
-  repeat match goal with H : _ /\ _ |- _ => destruct H end.
+  repeat match goal with H : _ /\ _ |- _ => destruct H end; neq_norm.
 Ltac shape da lk Hda Hnd Hlv :=
   destruct da as [fo|d doff]; [|cbn in Hda; subst doff]; destruct lk as [k|]; own_norm; own_facts Hnd Hlv.
 Ltac live_tac :=
-  rewrite ?live_hg; hg_chain; eqb_solve; cbv beta iota; rewrite <- ?live_hg;
+  rewrite ?live_hg; hg_chain; eqb_fast; cbv beta iota; rewrite <- ?live_hg;
   solve [assumption | discriminate | reflexivity | congruence
         | match goal with H : ?c = _ |- Some ?c = _ => rewrite H; reflexivity end
         | f_equal; auto ].
 Ltac frame_tac :=
-  own_norm; unfold frame; split; [congruence|split; [lia|]];
+  own_norm; unfold frame; split; [congruence|split; [lia_nd|]];
   let j := fresh "j" in let Hj := fresh "Hj" in let Hn := fresh "Hn" in
-  intros j Hj Hn; cbn [In] in Hn; hg_chain; eqb_solve; reflexivity.
+  intros j Hj Hn; cbn [In] in Hn; neq_norm; hg_chain; eqb_fast; reflexivity.
 Ltac fresh_tac :=
   let j := fresh "j" in let Hj := fresh "Hj" in
-  own_norm; intros j Hj; cbn [In] in *; lia.
-Ltac nodup_tac := repeat (constructor; [cbn [In]; lia|]); constructor.
+  own_norm; intros j Hj; cbn [In] in *;
+  repeat (destruct Hj as [<-|Hj]; [lia_nd|]); destruct Hj.
+Ltac nodup_tac := repeat (constructor; [cbn [In]; notin_tac|]); constructor.
 Ltac lives_tac :=
-  apply Forall_forall; repeat (constructor; [split; [lia|live_tac]|]); constructor.
+  apply Forall_forall; repeat (constructor; [split; [lia_nd|live_tac]|]); constructor.
 Ltac deref_tac Hraw :=
-  cbn [deref] in *; rewrite ?live_hg; hg_chain; eqb_solve; cbv beta iota; rewrite <- ?live_hg;
+  cbn [deref] in *; rewrite ?live_hg; hg_chain; eqb_fast; cbv beta iota; rewrite <- ?live_hg;
   first [exact Hraw | congruence | apply slice_full
         | repeat match goal with H : m_file _ = m_file _ |- _ => rewrite H end; exact Hraw].
 Ltac blk_tac raw Hraw Hinit :=
   unfold blk_coh; split;
-  [ let Hv := fresh "Hv" in intros Hv; rewrite ?live_hg; hg_chain; eqb_solve; f_equal; f_equal; auto
+  [ let Hv := fresh "Hv" in intros Hv; rewrite ?live_hg; hg_chain; eqb_fast; f_equal; f_equal; auto
   | split; [exists raw; split; [deref_tac Hraw|exact Hinit] | first [exact I|reflexivity]]].
 Ltac inv_tac Hic Hkc tac :=
   unfold inv_c; own_norm; split; [nodup_tac|]; split; [lives_tac|];
